@@ -151,9 +151,9 @@ OPTIONAL = [
     ("hollerith_tostr_match_tokens", "Hollerith_Item_tostr_match_tokens", a, "full", ""),
     ("hollerith_count_blanks_lost", "Hollerith_Item_count_blanks", ["C02"], "witness", "`1 2Habcdefghijkl` is printed `12Habcdefghijkl` (same tokens)"),
     ("use_tostr_match_tokens", "Use_Stmt_tostr_match_tokens", a, "full",
-     "EXACT relation: tokens kept when nothing but `, nature` precedes the `::` (useNatOK); otherwise the text between USE and `::` is NEVER LOOKED AT and is dropped from the printed statement - genuine defect, reachable: `use (a + :: m` and `use intrinsic :: iso_c_binding` (comma missing) are accepted and printed `USE :: m` / `USE :: iso_c_binding`"),
-    ("use_tostr_match_tokens_partial", "Use_Stmt_tostr_match_tokens_partial", a, "partial", "FULL STATEMENT FALSE: hypothesis useNatOK (decidable); witness Use_Stmt_drops_before_colons"),
-    ("use_drops_before_colons", "Use_Stmt_drops_before_colons", ["C02", "C08"], "witness", "`use x :: m` is accepted and printed `USE :: m` (replayed on the real class and through the parser)"),
+     "UNCONDITIONAL since the repair of Use_Stmt._match (`elif line[:idx].strip(): return None`): every accepted form of USE [[, nature] ::] name [, rename-list | , ONLY: [only-list]] keeps its tokens (before: a text between USE and `::` not starting with `,` was dropped; hypothesis useNatOK)"),
+    ("use_rejects_text_before_colons", "Use_Stmt_rejects_text_before_colons", ["C02", "C08"], "witness",
+     "REGRESSION for the repair: `use x :: m`, `use (a + :: m`, `use intrinsic :: iso_c_binding` are rejected (were accepted with the text dropped); `use :: m` and `use, intrinsic :: m` still accepted; replayed on the real class and through the parser"),
 ]
 for e in OPTIONAL:
     try:
@@ -166,7 +166,7 @@ for e in OPTIONAL:
 c6 = ["C06"]
 TOTAL = [
     ("matchOf_total", "match_total", c6, "full",
-     "EVERY modelled class: an exception escaping from `match` is the KeyError of string_replace_map's un-nesting loop, was raised inside a child call, or is one of the THREE own IndexErrors (Cray_Pointer_Decl `pointee_str[-1]`, Data_Edit_Desc `string[0]`, Data_Edit_Desc_C1002 `my_str[0]`) - genuine defects of /repo: `pointer (a,)` and `10 format(E)` make IndexError escape from the parser"),
+     "EVERY modelled class: an exception escaping from `match` is the KeyError of string_replace_map's un-nesting loop, was raised inside a child call, or is the IndexError of Data_Edit_Desc.match(\"\") (`string[0]`; latent: `format(2)` is a syntax error, no rule hands the empty string over). Cray_Pointer_Decl and Data_Edit_Desc_C1002 lost their IndexError with the repairs of /repo (regression witnesses planCrayPointerDecl_empty_pointee_regression, planDataEditDescC1002_bare_letter_regression)"),
 ]
 for e in TOTAL:
     try:
@@ -187,12 +187,12 @@ for f in ("RestTotal", "RestFixpoint"):
         nm = m.group(1)
         if nm in done or nm in EXCLUDE:
             continue
-        if not re.search(r"(_total|_raises|_not_raises|_indexError|_fixpoint|_partial|_witness|_needed|_escapes|_no_raise)", nm):
+        if not re.search(r"(_total|_raises|_not_raises|_indexError|_fixpoint|_partial|_witness|_needed|_escapes|_no_raise|_regression)", nm):
             continue
         serves, strength, note = AUTO_NOTES[f]
         st = strength
-        if re.search(r"(_witness|_escapes|_needed)", nm) or ": by decide" in src[f][m.start():m.start() + 600].split("\ntheorem")[0][-20:]:
-            st = "witness" if re.search(r"(_witness|_escapes|_needed)", nm) else strength
+        if re.search(r"(_witness|_escapes|_needed|_regression)", nm) or ": by decide" in src[f][m.start():m.start() + 600].split("\ntheorem")[0][-20:]:
+            st = "witness" if re.search(r"(_witness|_escapes|_needed|_regression)", nm) else strength
         if "_partial" in nm:
             st = "partial"
         add(nm, nm, serves, st, note)
@@ -205,9 +205,8 @@ add("bind_rejects_unbalanced_partial", "Bind_Stmt_rejects_unbalanced_partial", [
     "FULL STATEMENT FALSE (witness Bind_Stmt_unbalanced_accepted): hypothesis BindColons (the text contains `::`)")
 add("bind_unbalanced_accepted", "Bind_Stmt_unbalanced_accepted", ["C08"], "witness", "model-level: `bind c) x` accepted with balanced children")
 add("target_rejects_unbalanced", "Target_Stmt_rejects_unbalanced", ["C08"], "full", "")
-add("use_rejects_unbalanced_partial", "Use_Stmt_rejects_unbalanced_partial", ["C08"], "partial",
-    "FULL STATEMENT FALSE (witness Use_Stmt_unbalanced_accepted, replayed through the real parser): hypothesis useNatOK")
-add("use_unbalanced_accepted", "Use_Stmt_unbalanced_accepted", ["C08"], "witness", "`use (a + :: m` is accepted: an unbalanced parenthesis silently dropped")
+add("use_rejects_unbalanced", "Use_Stmt_rejects_unbalanced", ["C08"], "full", "unconditional since the repair of Use_Stmt._match")
+add("use_unbalanced_rejected", "Use_Stmt_unbalanced_rejected", ["C08"], "witness", "REGRESSION: `use (a + :: m` (unbalanced parenthesis before the `::`) is rejected; replayed through the real parser: FortranSyntaxError")
 add("include_rejects_unbalanced", "Include_Stmt_rejects_unbalanced", ["C08"], "full", "")
 
 UNB = [("return", "Return_Stmt"), ("typeParamDecl", "Type_Param_Decl"), ("enumerator", "Enumerator"), ("stmtFunction", "Stmt_Function_Stmt"),
@@ -231,7 +230,8 @@ The model (`FparserModel/Rest.lean`) mirrors `match` and the separately written 
   REPLACED by `::` in a BIND statement without `::`), each with a `decide` witness replayed on the real code by
   `fv/cosim_rest.py`.  Classes that go through `string_replace_map` carry the decidable hypothesis `SrmOK`.
 * `X_rejects_unbalanced` (C08): accepted and the children print balanced texts ⟹ the statement is balanced.
-* `match_total` (C06): which exceptions can escape (three own IndexErrors: genuine defects, with witnesses).
+* `match_total` (C06): which exceptions can escape (one own IndexError left: `Data_Edit_Desc.match("")`, latent; the two reachable ones
+  were repaired in /repo: regression witnesses).
 * `X_match_tostr_fixpoint` (C01): the printed text is matched again with the same items, under explicit side conditions.
 
 The theorems are proved in `Proofs/Rest*.lean`; this file states them (same statements) and gives non-vacuity examples.
@@ -274,8 +274,10 @@ example : (planRename "operator(.a.) => operator(.b.)".toList).bind (runSlots ec
 example : (planIoImpliedDo "(a(i), i = 1, n)".toList).bind (runSlots echoOracle)
     = .ok [.node "a(i)".toList, .node "i = 1, n".toList] ∧ SrmOK (strip (inner "(a(i), i = 1, n)".toList)) := by decide +kernel
 example : matchIntrinsicTypeSpec echoOracle "double   precision".toList = .ok [.str "DOUBLE PRECISION".toList, .none] := by decide
-example : planCrayPointerDecl "(a,)".toList = .raises .indexError := by decide
-example : planDataEditDescC1002 "E".toList = .raises .indexError := by decide
+example : planCrayPointerDecl "(a,)".toList = .noMatch := by decide
+example : planDataEditDescC1002 "E".toList = .noMatch := by decide
+example : matchUse echoOracle "use, intrinsic :: iso_c_binding, only: c_int".toList
+    = .ok [.node "intrinsic".toList, .str "::".toList, .node "iso_c_binding".toList, .str ", ONLY:".toList, .node "c_int".toList] := by decide
 example : planDataEditDesc [] = .raises .indexError := by decide
 '''
 
